@@ -67,11 +67,11 @@ MC = {
                 thorough=[cfgd(RF=1, Addr=addrs(2), MaxW=1, MaxSnap=2, Ops={"snapshot", "snapfail", "cpfail"}),
                           cfgd(MaxW=1, MaxSnap=2, Ops={"snapshot"}),
                           cfgd(MaxW=1, MaxSnap=1, Ops={"snapshot", "snapfail", "revert"})],
-                mutants=[("snapNoGate", "SnapNeedsAllRW")]),
+                mutants=[("snapNoGate", "SnapNeedsAllRW", dict(RF=2, Addr=addrs(3)))]),   # (with RF 1 "not all RW" means "no replica")
     "C18": dict(quick=[cfgd(RF=1, Addr=addrs(2), MaxW=1, Ops={"seterr", "createfail", "resize"}), cfgd(MaxW=1, Ops={"seterr"})],
                 thorough=[cfgd(MaxW=1, Ops={"seterr", "createfail", "read"}),
                           cfgd(RF=3, Addr=addrs(4), MaxW=1, Ops={"seterr"})],
-                mutants=[("addNoSecondRFCheck", "AtMostRF")]),
+                mutants=[("addNoSecondRFCheck", "AtMostRF", dict(RF=1, Addr=addrs(3)))]),   # (two adds racing for the single slot)
 }
 
 PROFILE = {"C02": "mixed", "C03": "membership", "C04": "mixed", "C05": "mixed", "C09": "bootstrap",
@@ -413,8 +413,11 @@ def run(prop, tier, seed, replay=None, embed=False):
                                     "QuorumMoreThanHalf MinorityNoQuorum VariantDiffers", domain="all n, rf (unbounded integers)",
                                     control="WrongGE refuted"))
             if not quick:
-                for bug, expect in MC[prop]["mutants"]:
+                for mut in MC[prop]["mutants"]:
+                    bug, expect = mut[0], mut[1]
                     c = dict(MC[prop]["quick"][-1])
+                    if len(mut) > 2:
+                        c.update(mut[2])      # (a base configuration in which the mutant's effect is reachable)
                     c["Bug"] = {bug}
                     c["Ops"] = set(c["Ops"]) | {"read", "seterr", "snapshot", "snapfail"}
                     c["MaxW"] = 2
